@@ -544,6 +544,8 @@ class Graph(object):
         """
         self._points = []
         self._cur_context = {}
+        # a scale taken from the context of a filled value is forgotten
+        self._scale = self._init_context["scale"]
 
     def __repr__(self):
         self._update()
